@@ -7,7 +7,7 @@
 //             | 1 T qtilde          the shipped WhiteNoiseAcceleration (n = 2, 4, 6)
 //     <set>   = states(n×k) means(n×k) covs(n×nk) logweights(k)
 //     <step>  = P skip
-//             | C skip y(m) valid <lik>
+//             | C skip move y(m) valid <lik>      (move: move-construct the GPFCorrection object first)
 //     <lik>   = 0 l(k) | 1 c(k) a(n) | 2 scale          (2 = the shipped GaussianLikelihood)
 //
 // One GPFPrediction and one GPFCorrection object live through the whole history (so the random
@@ -207,6 +207,7 @@ static std::string gpfh(Toks& t) {
             o.m(dout.mean()); o.m(dout.covariance());
             o.s(sameSet(in0, cur) ? "in-same" : "in-modified");
         } else if (kind == "C") {
+            bool mv = t.flag();
             script->y = t.vec(m);
             script->lik_valid = t.flag();
             int lk = (int)t.nat();
@@ -224,6 +225,11 @@ static std::string gpfh(Toks& t) {
                 gpfc.reset(new GPFCorrection(std::move(lm), std::move(w), makeTrans(transKind, n, A, b, c, T, qt), seed));
                 directC = makeCorr(corrKind, H, R, script, alpha, beta, kappa, sub);
             } else if (((lk == 2) ? 2 : 0) != builtLikKind) throw vh::BadArgs("likKind-changed");
+            if (mv) {   // move-construct the correction into a new object and destroy the source: the
+                        // random stream must simply continue
+                std::unique_ptr<GPFCorrection> moved(new GPFCorrection(std::move(*gpfc)));
+                gpfc = std::move(moved);
+            }
             wrappedC->skip(skip);
             directC->skip(skip);
             gpfc->correct(cur, out);
